@@ -526,6 +526,13 @@ func (g *Gen) postfix(depth int) {
 	for k := g.n(3); k > 0; k-- {
 		switch g.n(8) {
 		case 0, 1:
+			if last := g.toks[len(g.toks)-1].S; last[0] >= '0' && last[0] <= '9' && !strings.Contains(last, ".") && !g.p(0.05) {
+				// member access on an integer literal (`2 .a`) is legal but rare in practice (and hits a known printer defect)
+				g.feat("expr/optional-member")
+				g.e("?.")
+				g.tight().e(g.pick(fieldNames...))
+				break
+			}
 			g.feat("expr/member")
 			g.e(".")
 			g.tight().e(g.pick(fieldNames...))
@@ -774,7 +781,17 @@ func (g *Gen) conditions(kind string, depth int) {
 			g.invocationArgs(1, false)
 			continue
 		}
+		start := len(g.toks)
 		g.expr(min(depth, 2))
+		if i > 0 && strings.ContainsRune("-*/&<", rune(g.toks[start].S[0])) && !g.p(0.03) {
+			// a condition that starts with an operator character would continue the previous condition when the two are
+			// separated by a newline only (which is what the printer emits: a known defect), so it is parenthesised
+			open := g.toks[start]
+			open.S = "("
+			rest := append([]Tok{{S: g.toks[start].S}}, g.toks[start+1:]...)
+			g.toks = append(append(g.toks[:start:start], open), rest...)
+			g.e(")")
+		}
 		if g.p(0.5) {
 			g.feat("cond/message")
 			g.e(":")
